@@ -8,6 +8,7 @@ import (
 	"bytes"
 	"fmt"
 	"io"
+	"net"
 	"os"
 	"strings"
 	"time"
@@ -245,6 +246,7 @@ func units(tier string, prop string, mon Monitor) []runner.Unit {
 	us = append(us, siblingUnits(prop)...)
 	us = append(us, lateResponseUnits(prop)...)
 	us = append(us, deadlineStraddleUnits(prop)...)
+	us = append(us, deadlineStraddleS2CUnits(prop)...)
 	return us
 }
 
@@ -590,6 +592,134 @@ func deadlineStraddleUnits(prop string) []runner.Unit {
 			_, mark := run(0, explore.NewCtl(nil))
 			if mark == 0 {
 				u.EngineError("deadline-straddle: the first pass did not get to the second exchange")
+				return
+			}
+			u.Explore(explore.Bound{}, name, func(ctl *explore.Ctl) explore.Result {
+				r, _ := run(mark+first, ctl)
+				return r
+			})
+			u.Distinct(name)
+		}
+	}}}
+}
+
+// deadlineStraddleS2CUnits: the mirror image of deadlineStraddleUnits: the server application
+// writes after a long idle period and the segment reaches the *client* in two parts around the
+// client end's idle read deadline.
+func deadlineStraddleS2CUnits(prop string) []runner.Unit {
+	return []runner.Unit{{Name: "segment-straddles-the-idle-read-deadline-of-the-client", Cost: 2, Run: func(u *runner.U) {
+		for i, first := range []int64{1, 10, 48, 60} {
+			first := first
+			name := fmt.Sprintf("TCP, one idle proxy connection; the first %d bytes of the server's next segment arrive 2 ms before the client end's idle read deadline, the rest 5 ms later", first)
+			u.Sample(name)
+			run := func(holdAt int64, ctl *explore.Ctl) (explore.Result, int64) {
+				v := &Verdict{Prop: prop + "/idle-deadline-straddle"}
+				cfg := world.Config{MTU: 1400, Seed: int64(3550 + i), Horizon: 400 * time.Second, RawMux: true}
+				if holdAt > 0 {
+					cfg.S2C.HoldAt, cfg.S2C.HoldFor = holdAt, 5*time.Millisecond
+				}
+				var mark int64
+				ex := world.Run(cfg, ctl, func(w *world.World) {
+					var sc net.Conn
+					var g world.Group
+					g.Go("srv", "server", func() {
+						c, err := w.RawAccept()
+						if err == nil {
+							sc = c
+						}
+					})
+					a, err := w.RawDial()
+					if err != nil {
+						v.Add("dial-failed", "%v", err)
+						return
+					}
+					// the client speaks first (the open request rides on it), the server answers
+					hello := world.Pattern(1, 'c', 0, 50)
+					if _, err := a.Write(hello); err != nil {
+						v.Add("write-error", "first write: %v", err)
+						return
+					}
+					g.Wait()
+					if sc == nil {
+						v.Add("setup", "accept failed")
+						return
+					}
+					buf := make([]byte, 64)
+					if _, err := io.ReadFull(sc, buf[:50]); err != nil {
+						v.Add("read-error", "server: %v", err)
+						return
+					}
+					push := func(off, n int, what string) bool {
+						m := world.Pattern(1, 's', off, n)
+						var werr error
+						w.OnNode("server", func() { _, werr = sc.Write(m) })
+						if werr != nil {
+							v.Add("write-error", "%s: server Write: %v; the connection was never closed", what, werr)
+							return false
+						}
+						got := make([]byte, n)
+						a.SetReadDeadline(w.S.Now().Add(30 * time.Second))
+						rn, err := io.ReadFull(a, got)
+						switch {
+						case err == io.EOF || err == io.ErrUnexpectedEOF:
+							v.Add("early-eof", "%s: clean end of stream after %d of %d bytes; the connection was never closed", what, rn, n)
+							return false
+						case err != nil:
+							v.Add("read-error", "%s: read %d of %d bytes: %v", what, rn, n, err)
+							return false
+						case !bytes.Equal(got, m):
+							v.Add("mismatch", "%s: the bytes differ", what)
+							return false
+						}
+						return true
+					}
+					if !push(0, 200, "first server write") {
+						return
+					}
+					if len(w.Net.Conns) == 0 {
+						v.Add("setup", "no connection")
+						return
+					}
+					cliEnd := w.Net.Conns[0]
+					for k := 0; k < 10; k++ {
+						d := cliEnd.ReadDeadlineNS()
+						if d == 0 {
+							vsched.Sleep(time.Millisecond)
+							continue
+						}
+						if wait := d - w.S.NowNS() - int64(2*time.Millisecond); wait > 0 {
+							vsched.Sleep(time.Duration(wait))
+						}
+						if cliEnd.ReadDeadlineNS() == d {
+							break
+						}
+					}
+					for _, t := range w.Net.Streams {
+						if t.Dir == "s2c" {
+							mark += int64(len(t.Data))
+						}
+					}
+					if !push(200, 300, "server write whose first segment straddles the client end's idle read deadline") {
+						return
+					}
+					vsched.Sleep(100 * time.Millisecond)
+					push(500, 100, "server write after the straddling segment")
+					a.Close()
+					sc.Close()
+					w.Shutdown()
+				})
+				for _, pn := range ex.Panics {
+					v.Add("panic", "%s", pn)
+				}
+				out := "ok"
+				if len(v.Viol) > 0 {
+					out = v.Viol[0].Signature
+				}
+				return explore.Result{Outcome: out, Violations: v.Viol, Steps: ex.Steps}, mark
+			}
+			_, mark := run(0, explore.NewCtl(nil))
+			if mark == 0 {
+				u.EngineError("deadline-straddle (client end): the first pass did not get to the second server write")
 				return
 			}
 			u.Explore(explore.Bound{}, name, func(ctl *explore.Ctl) explore.Result {
